@@ -14,7 +14,9 @@ Inductive vkind := VState | VStruct | VFact (i : nat).
 
 Record areq := mkareq {
   a_alphabet : bool;
-  a_script : nat;          (* chain's verdict on the main tx script: 0 HALT, 1 FAULT, 2 RPC error *)
+  a_script : nat;          (* outcome of the test invocation of the main tx script (IsValidScript): 0 HALT, 1 FAULT,
+                              >= 2 no verdict: the invocation itself failed (2 RPC error answer, 3 undecodable answer,
+                              4 connection dropped). Only 0 shows the transaction to be valid. *)
   a_parsed : bool;         (* the notary parser produced an AddNode event *)
   a_state : nat;           (* announced node state *)
   a_addr_ok : bool;        (* announced addresses are acceptable (structure validator) *)
@@ -46,8 +48,19 @@ Definition may_admit (cfg : list vkind) (r : areq) : bool :=
 
 (* ---- epoch ticks ---- *)
 
-Inductive hev := Notif (n : N) | Tick | SetAlpha (b : bool).
+(* Notif n env: the new-epoch notification of epoch n, handled while the chain behaves as env says:
+   2 bits per RPC call of processNewEpoch (epoch duration, transaction height, network map listing,
+   iterator traversal, container listing; 0 = answered, otherwise the request fails), the same for the reset of
+   the local epoch timer, and the snapshot served.
+   Tick: the epoch timer fires (whatever the chain answers to the NewEpoch invocation).
+   SetAlpha b: the node becomes / ceases to be an alphabet member. *)
+Inductive hev := Notif (n : N) (env : N) | Tick | SetAlpha (b : bool).
 Record hst := mkhst { h_counter : N; h_alpha : bool }.
+
+(* processNewEpoch: SetEpochCounter(epoch of the notification) happens before every step that can fail or
+   return early (transaction height, timer reset, network map snapshot, placement update), so no failure of
+   the chain while the handler runs (env) keeps the counter from following the notification *)
+Definition on_notif (s : hst) (n env : N) : hst := mkhst n (h_alpha s).
 
 (* uint64 increment of EpochCounter()+1 *)
 Definition next (c : N) : N := ((c + 1) mod 18446744073709551616)%N.
@@ -56,7 +69,7 @@ Definition next (c : N) : N := ((c + 1) mod 18446744073709551616)%N.
 Fixpoint run (s : hst) (h : list hev) : list (list N) :=
   match h with
   | [] => []
-  | Notif n :: r => run (mkhst n (h_alpha s)) r
+  | Notif n env :: r => run (on_notif s n env) r
   | Tick :: r => (if h_alpha s then [next (h_counter s)] else []) :: run s r
   | SetAlpha b :: r => run (mkhst (h_counter s) b) r
   end.
@@ -64,7 +77,7 @@ Fixpoint run (s : hst) (h : list hev) : list (list N) :=
 (* reference, by prefixes: the latest notified epoch (or the initial counter) and the alphabet
    membership at the moment of a tick *)
 Definition latest (init : N) (pre : list hev) : N :=
-  fold_left (fun c e => match e with Notif n => n | _ => c end) pre init.
+  fold_left (fun c e => match e with Notif n _ => n | _ => c end) pre init.
 Definition alpha_at (a0 : bool) (pre : list hev) : bool :=
   fold_left (fun a e => match e with SetAlpha b => b | _ => a end) pre a0.
 Definition ticks (h : list hev) : nat := length (filter (fun e => match e with Tick => true | _ => false end) h).
